@@ -41,7 +41,15 @@ class SymH:
     def real(self, name, inf=False):
         v = self.st.fresh(name, 'real')
         self._reg(name, lambda m, t=v.t: _num(m, t))
+        self._inf_axiom()
+        self.st.assume(z3.And(-INF <= v.t, v.t <= INF) if inf else z3.And(-INF < v.t, v.t < INF))
         return v
+
+    def _inf_axiom(self):
+        if not getattr(self, '_inf_done', False):
+            self._inf_done = True
+            self.st.assume(INF >= z3.RealVal(2) ** 1024)
+            self._reg('INF', lambda m: _num(m, INF))
 
     def int(self, name):
         v = self.st.fresh(name, 'int')
@@ -69,6 +77,11 @@ class SymH:
         ln = z3.Int(name + '_n')
         self.st.assume(ln >= minlen)
         self.st.size_terms.append(ln)
+        if ek == 'real':
+            self._inf_axiom()
+            kq = z3.Int(name + '_kq')
+            sel = z3.Select(arr, kq)
+            self.st.assume(z3.ForAll([kq], z3.And(-INF <= sel, sel <= INF) if inf else z3.And(-INF < sel, sel < INF)))
         r = self.st.alloc('slist', {'len': ln, 'arr': arr, 'ek': ek}, name=name, nd=nd)
 
         def get(m, ln=ln, arr=arr):
@@ -128,7 +141,8 @@ class SymH:
         self.st.heap[obj][name] = v
 
     # ------------------------------------------------------------ abstract callables
-    def fn(self, name, ret='real', raises=(), attrs=None, missing=(), pure=True, nargs=None, sym=None, native=None):
+    def fn(self, name, ret='real', raises=(), attrs=None, missing=(), pure=True, nargs=None, sym=None, native=None,
+           log=None, mutates=False):
         """abstract callable.  ret: real | int | bool | opaque | list | same (returns a list of the length of arg 0).
         Deterministic in its numeric/list arguments (uninterpreted function).  `raises`: exception type names
         that it may raise (decided by an uninterpreted predicate of the arguments)."""
@@ -137,6 +151,24 @@ class SymH:
         def impl(I, args, kwargs):
             if sym is not None:
                 return sym(H, I, args, kwargs)
+            if log is not None:
+                H.st.ghost.setdefault(log, []).append(tuple(Mo.snapshot(I, a) for a in args))
+            if mutates:
+                res = impl0(I, args, kwargs)
+                for a in args:
+                    if Mo.is_list(a):
+                        I.st.note_write(a)
+                        if a.kind == 'slist':
+                            c = dict(I.st.heap[a])
+                            c['arr'] = z3.Array(I.st.fresh_name(name + '_mut'), z3.IntSort(),
+                                                z3.RealSort() if c['ek'] == 'real' else z3.IntSort())
+                            I.st.heap[a] = c
+                        else:
+                            I.st.heap[a] = [I.havoc_like(x, name + '_mut') if numkind(x) else x for x in I.st.heap[a]]
+                return res
+            return impl0(I, args, kwargs)
+
+        def impl0(I, args, kwargs):
             enc = []
             for a in list(args) + [kwargs[k] for k in sorted(kwargs)]:
                 enc.extend(H._encode(a))
@@ -145,14 +177,21 @@ class SymH:
                 p = H._uf(name + '!raises_' + ex, sig, z3.BoolSort())
                 if I.st.branch(p(*enc) if enc else p()):
                     raise PyExc(ex)
-            if ret in ('real', 'int', 'bool'):
-                f = H._uf(name, sig, {'real': z3.RealSort(), 'int': z3.IntSort(), 'bool': z3.BoolSort()}[ret])
-                return SV(f(*enc) if enc else f(), ret)
+            if ret in ('real', 'int', 'bool', 'xreal'):
+                f = H._uf(name, sig, {'real': z3.RealSort(), 'xreal': z3.RealSort(), 'int': z3.IntSort(), 'bool': z3.BoolSort()}[ret])
+                t = f(*enc) if enc else f()
+                if ret in ('real', 'xreal'):
+                    H._inf_axiom()
+                    I.st.assume(z3.And(-INF < t, t < INF) if ret == 'real' else z3.And(-INF < t, t <= INF))
+                return SV(t, 'real' if ret == 'xreal' else ret)
             if ret == 'opaque':
                 f = H._uf(name + '!truthy', sig, z3.BoolSort())
                 return SOpaque(name, f(*enc) if enc else f())
             if ret in ('list', 'same', 'ndarray', 'same_nd'):
                 fa = H._uf(name + '!arr', sig, z3.ArraySort(z3.IntSort(), z3.RealSort()))
+                H._inf_axiom()
+                kq = z3.Int(I.st.fresh_name(name + '_kq'))
+                I.st.assume(z3.ForAll([kq], z3.And(-INF < z3.Select(fa(*enc), kq), z3.Select(fa(*enc), kq) < INF)))
                 if ret.startswith('same'):
                     ln = Mo.to_slist(I, args[0])[0]
                 else:
@@ -173,6 +212,9 @@ class SymH:
         f.native = native
         f.spec = dict(ret=ret, raises=tuple(raises))
         return f
+
+    def log(self, name):
+        return tuple(self.st.ghost.get(name, []))
 
     def _uf(self, name, sig, ret):
         key = name
@@ -481,6 +523,7 @@ class NativeH:
         self.symh = symh
         self.choices = choices or {}
         self.infval = self.values.get('INF')
+        self.ghost = {}
 
     # ------------------------------------------------------------ symbols
     def _val(self, name, gen):
@@ -600,7 +643,8 @@ class NativeH:
         obj.__dict__[name] = v
 
     # ------------------------------------------------------------ abstract callables
-    def fn(self, name, ret='real', raises=(), attrs=None, missing=(), pure=True, nargs=None, sym=None, native=None):
+    def fn(self, name, ret='real', raises=(), attrs=None, missing=(), pure=True, nargs=None, sym=None, native=None,
+           log=None, mutates=False):
         H = self
         table = self.tables.setdefault(name, {})
         rec = self.record['tables'].setdefault(name, [])
@@ -623,7 +667,15 @@ class NativeH:
         def f(*args, **kwargs):
             if native is not None:
                 return native(H, *args, **kwargs)
+            if log is not None:
+                import copy
+                H.ghost.setdefault(log, []).append(tuple(copy.deepcopy(a) for a in args))
             k = key_of(args, kwargs)
+            if mutates:
+                for a in args:
+                    if hasattr(a, '__setitem__') and len(a):
+                        for j in range(len(a)):
+                            a[j] = a[j] + 1.0 + j
             if k in table:
                 r = table[k]
             else:
@@ -656,6 +708,8 @@ class NativeH:
                 return {'raise': ex}
         if ret == 'real':
             return self._rnd_real()
+        if ret == 'xreal':
+            return self._rnd_real(True)
         if ret == 'int':
             return r.randrange(-3, 6)
         if ret in ('bool', 'opaque'):
@@ -688,14 +742,14 @@ class NativeH:
                 uf = sh.ufs.get(name + '!raises_' + ex)
                 if uf is not None and z3.is_true(m.eval(uf[0](*enc), model_completion=True)):
                     return {'raise': ex}
-            if ret in ('real', 'int', 'bool'):
+            if ret in ('real', 'int', 'bool', 'xreal'):
                 uf = sh.ufs.get(name)
                 if uf is None:
                     return None
                 v = m.eval(uf[0](*enc) if enc else uf[0](), model_completion=True)
                 if ret == 'bool':
                     return bool(z3.is_true(v))
-                return self._flt(_num(m, v)) if ret == 'real' else int(_num(m, v))
+                return self._flt(_num(m, v)) if ret in ('real', 'xreal') else int(_num(m, v))
             if ret == 'opaque':
                 uf = sh.ufs.get(name + '!truthy')
                 if uf is None:
@@ -719,6 +773,9 @@ class NativeH:
         if isinstance(x, float) and math.isinf(x):
             return INF if x > 0 else -INF
         return z3.RealVal(str(Fraction(x)))
+
+    def log(self, name):
+        return tuple(self.ghost.get(name, []))
 
     # ------------------------------------------------------------ code access
     def get(self, anchor):
